@@ -91,7 +91,7 @@ theorem C07_not_spuriously_completed (k : Kind) (d m : Xml) (hc : completed d = 
            split
            · exact ⟨hc, by simp⟩
            · rename_i rc hget
-             refine ⟨?_, nc_mergeRc _ rc base (msgIdExc m)⟩
+             refine ⟨?_, fun h => by rcases nc_mergeRc _ rc base (msgIdExc m) _ h with h | ⟨x, h⟩ <;> cases h⟩
              rw [completed_eq_any, Xml.withKids_kids,
                any_set_same_tag d.kids i _ rc _ hget (by simp), ← completed_eq_any, hc])
 
